@@ -662,6 +662,75 @@ def _find_shard(seed, n, known):
     return res
 
 
+def _find_user_shard(seed, n, known):
+    """A user-defined compiler whose flag selects passes that contribute ONLY an include file, ONLY an
+    include path or ONLY a define: a line guarded by what that contribution provides is attributed iff
+    some pass of some command provides it (through config.load_database + finder.find)."""
+    core.setup_import_path()
+    from hypothesis import strategies as st
+
+    from codebasin import CodeBase, config, finder
+
+    res = Result()
+    kinds = ["include_files", "include_paths", "defines"]
+
+    def toml_for(pkinds):
+        out = ['[compiler.devcc]', '[[compiler.devcc.parser]]', 'flags = ["-fdev"]', 'action = "store_split"', 'sep = ","', 'format = "p-$value"', 'dest = "passes"']
+        for i, k in enumerate(pkinds):
+            out += ["[[compiler.devcc.passes]]", f'name = "p-{i}"']
+            if k == "include_files":
+                out.append(f'include_files = ["dev{i}.h"]')
+            elif k == "include_paths":
+                out.append(f'include_paths = ["inc{i}"]')
+            else:
+                out.append(f'defines = ["DEVMAC{i}"]')
+        return "\n".join(out) + "\n"
+
+    case = st.tuples(st.lists(st.sampled_from(kinds), min_size=1, max_size=3), st.lists(st.lists(st.integers(0, 2), max_size=3, unique=True), min_size=1, max_size=3))
+
+    def chk(c, r):
+        pkinds, cmds = c
+        cmds = [[i for i in sel if i < len(pkinds)] for sel in cmds]
+        with core.Scratch("c12u") as root:
+            files = {".cbi/config": toml_for(pkinds)}
+            src = []
+            for i, k in enumerate(pkinds):
+                files[f"dev{i}.h"] = f"#define DEVMAC{i} 1\n"
+                files[f"inc{i}/only{i}.h"] = f"#define DEVMAC{i} 1\n"
+                if k == "include_paths":
+                    src.append(f"#include <only{i}.h>")
+                else:
+                    src.append(f"/* pass {i} */")
+                src += [f"#ifdef DEVMAC{i}", f"int guarded{i};", "#endif", f"#undef DEVMAC{i}"]
+            files["main.c"] = "\n".join(src) + "\n"
+            core.write_tree(root, files)
+            db = [{"directory": root, "file": "main.c", "arguments": ["devcc"] + (["-fdev=" + ",".join(str(i) for i in sel)] if sel else []) + ["-c", "main.c"]} for sel in cmds]
+            with open(os.path.join(root, "db.json"), "w") as f:
+                json.dump(db, f)
+            old = os.getcwd()
+            os.chdir(root)
+            try:
+                config._compilers = None
+                cfg = {"p": config.load_database(os.path.join(root, "db.json"), root)}
+                state = finder.find(root, CodeBase(root), cfg)
+            except Exception as e:
+                return [make_violation(f"user-pass-pipeline:exception:{type(e).__name__}", {"passes": pkinds, "commands": cmds}, "analysis succeeds", f"{type(e).__name__}: {e}")]
+            finally:
+                os.chdir(old)
+                config._compilers = None
+            a, _ = observe.attribution_of(state, os.path.join(root, "main.c"))
+        selected = {i for sel in cmds for i in sel}
+        exp = {5 * i + 3: (i in selected) for i in range(len(pkinds))}
+        got = {ln: bool(a.get(ln)) for ln in exp}
+        r.case(key=["user-pass", pkinds, cmds], nontrivial=len(selected) >= 1 and len(cmds) >= 1, sample={"pass_kinds": pkinds, "commands": cmds} if len(selected) >= 2 else None, labels=["finder-user-pass"])
+        if exp != got:
+            return [make_violation("user-pass-pipeline:guarded-line-attribution", {"passes": pkinds, "commands": cmds}, exp, got)]
+        return []
+
+    core.hyp_search(case, chk, n, seed, res, known_sigs=known)
+    return res
+
+
 def _dispatch(job):
     fn, a = job
     return fn(*a)
@@ -673,6 +742,7 @@ def run(ctx):
     jobs = [(_rand_shard, (ctx.shard_seed("rand", i), nrand // (n - 4), ctx.known_sigs)) for i in range(n - 4)]
     jobs += [(_builtin_shard, (i, 2, ctx.known_sigs)) for i in range(2)]
     jobs += [(_find_shard, (ctx.shard_seed("find", i), ctx.pick(40, 600), ctx.known_sigs)) for i in range(2)]
+    jobs += [(_find_user_shard, (ctx.shard_seed("finduser", i), ctx.pick(60, 1500), ctx.known_sigs)) for i in range(2)]
     res = core.merge_results(core.pool_map(_dispatch, [(j,) for j in jobs]))
     res.exhaustive = False
     res.extra["exhaustive_part"] = "built-in definitions: gcc/g++ x -fopenmp, clang x {-fopenmp,-fsycl-is-device}, icx/icpx x {-fopenmp,-fsycl} x every subset of 5 targets, nvcc x -fopenmp x architecture lists of size <= 3 in two spellings"
